@@ -1,4 +1,5 @@
 import FitProps.RawLemmas
+import FitProps.AgreeLemmas
 /-!
 # C16 — Raw decoder segments exactly the bytes and agrees with the full decoder
 
@@ -58,6 +59,40 @@ theorem C16_lengths (failAt : Option Nat) (fuel : Nat) (bs : Bytes) (hb : IsByte
 /-- non-vacuity: a one-record file is segmented into header, definition, CRC; `lengthsOK` rejects a wrong cut -/
 example : (rawOut none 2 [14, 32, 0, 0, 9, 0, 0, 0, 46, 70, 73, 84, 0, 0,  64, 0, 0, 0, 0, 1, 0, 1, 2,  7, 9]).segs.map (·.bytes.length) = [14, 9, 2] ∧
     lengthsOK [⟨rawFlagFileHeader, [14, 32, 0, 0, 9, 0, 0, 0, 46, 70, 73, 84, 0, 0]⟩, ⟨rawFlagMesgDef, [64, 0, 0, 0, 0, 1, 0, 1]⟩] = false := by
+  decide +kernel
+
+/-! ## agreement with the full decoder -/
+
+open Fit.Agree in
+/-- AGREEMENT. Whenever the full decoder (checksum ignored) ACCEPTS a stream — every `Decode` of the
+`for dec.Next() { dec.Decode() }` loop succeeds and the loop ends because the stream ends exactly at a sequence
+boundary — the raw decoder accepts it too (no error), consumes all of it, reports the same number of sequences, and
+its definition and data segments are, in order, exactly the full decoder's definition and message events: same
+kind, same header byte (hence the same local message number, compressed-timestamp headers whose bit 6 overlaps the
+definition flag included), and for definitions the same architecture, global message number, field definitions
+and developer field definitions. For every stream: any definition shapes (0..255 fields, developer fields, fields
+of size 0, undersized, oversized), any number of chained sequences. -/
+theorem C16_agree (fuel : Nat) (bs : Bytes) (hb : IsBytes bs)
+    (hacc : (runExact (DecProg.decodeLoop false fuel true []) bs).status = none)
+    (hclean : (runExact (DecProg.decodeLoop false fuel true []) bs).clean = true) :
+    (rawOut none fuel bs).status = none ∧ rawN none fuel bs = bs.length ∧
+    (rawOut none fuel bs).seqs = seqCount (runExact (DecProg.decodeLoop false fuel true []) bs).evs ∧
+    rawItems (rawOut none fuel bs).segs = decItems (runExact (DecProg.decodeLoop false fuel true []) bs).evs := by
+  have h := loop_agree fuel true [] {} bs ⟨rfl, rfl⟩ (fun h => by cases h) hb
+  unfold Agree at h
+  rw [runExactR_fst, runExactR_fst] at h
+  obtain ⟨h1, h2, h3, h4⟩ := h hacc hclean
+  have hn := consumed_eq (decode none fuel {}) bs
+  rw [h4] at hn
+  exact ⟨h1, by simpa [rawN] using hn, h3, h2⟩
+
+/-- non-vacuity: a two-sequence stream with a definition, a compressed-timestamp data record of local type 2 (header
+0xC5: bit 6 set) and a plain one is accepted by the full decoder model; the raw decoder reports 2 sequences -/
+example :
+    let bs : Bytes := [14, 32, 0, 0, 16, 0, 0, 0, 46, 70, 73, 84, 0, 0,  0x42, 0, 0, 20, 0, 2, 3, 1, 2, 4, 0, 2,  0xC5, 9,  2, 7,  0, 0,
+                       12, 32, 0, 0, 9, 0, 0, 0, 46, 70, 73, 84,  0x40, 0, 1, 0, 0, 1, 0, 1, 2,  0, 0]
+    (runExact (DecProg.decodeLoop false 5 true []) bs).status = none ∧
+    (runExact (DecProg.decodeLoop false 5 true []) bs).clean = true ∧ (rawOut none 5 bs).seqs = 2 := by
   decide +kernel
 
 end Fit.C16
